@@ -6,9 +6,9 @@
    allow / deny.  `chk_endpoint kv` is the model of app-policy/checker checkStore (Model.v) for the checker variant kv
    (pinned_kvariant = the code as pinned, fixed_kvariant = with fixes/C12-checker-agree.patch; the driver probes
    which one the tree is).  `state_in_fragment kv v tbl tiers profs` / `packet_in_fragment p` is the COMMON FRAGMENT
-   (Spec.v): no ICMP and no named-port match, no negated CIDR list of the other family, referenced sets / policies /
-   profiles present in the store, IP+port members tcp/udp, protocol 1..255; for the pinned variant also: no Pass
-   rule in a profile, tier default action set, no explicit ip_version, NET members of length <= w-8 or = w. *)
+   (Spec.v): no ICMP match, no negated CIDR list of the other family, referenced sets / policies / profiles present in
+   the store, IP+port members tcp/udp, protocol 1..255; for the pinned variant also: no Pass rule in a profile, tier
+   default action set, no explicit ip_version, NET members of length <= w-8 or = w, no named-port match. *)
 From Coq Require Import List NArith Bool String.
 From Verif.Common Require Import Packet PolicyRef Ipt.
 From Verif.C08 Require Import Model Spec ProofsFilter.
@@ -134,6 +134,12 @@ Theorem c12_trie_pinned_refuted :
   refutes [(1, [ECidr 167772160 25])] [] [prof [with_src_set allow_rule 1]] tcp_packet VdAllow RDenied.
 Proof. exact trie_refuted_pf. Qed.
 Print Assumptions c12_trie_pinned_refuted.
+
+(* (5) named-port sets are looked up with the bare port number, which no member "<ip>,<proto>:<port>" equals *)
+Theorem c12_named_port_pinned_refuted :
+  refutes [(5, [EPort 167772162 6 80])] [] [prof [allow_tcp_named5]] tcp_packet VdAllow RDenied.
+Proof. exact named_refuted_pf. Qed.
+Print Assumptions c12_named_port_pinned_refuted.
 
 (* the hypotheses of c12_checker_verdict are satisfiable by a non-trivial state of the PINNED fragment (two tiers, a
    staged policy, a NET set, a profile) on which the verdict is allow *)
